@@ -104,6 +104,79 @@ def is_fd_object(x):
     return type(x).__module__.startswith("FDApy")
 
 
+class _Cell:
+    __slots__ = ("name",)
+
+    def __init__(self, name):
+        self.name = name
+
+
+def _value_token(v):
+    """value (not identity) of a configuration entry"""
+    if v is None or isinstance(v, (bool, int, float, complex, str, bytes, np.generic)):
+        return _scalar(v)
+    if isinstance(v, np.ndarray):
+        a = np.asarray(v)
+        if a.dtype.kind in "fiub":
+            return f"arr{a.shape}:" + ",".join(float(x).hex() for x in a.ravel())
+    return "deep:" + result_bytes(v)
+
+
+def _ints_token(v):
+    """int k and an array of k's are the same configuration (PSplines promotes on fit)"""
+    try:
+        a = np.atleast_1d(np.asarray(v))
+        if a.size and a.dtype.kind in "iu" and np.all(a == a.ravel()[0]):
+            return f"ints:{int(a.ravel()[0])}"
+    except Exception:  # noqa: BLE001
+        pass
+    return _value_token(v)
+
+
+def _ones_token(v):
+    """weights=None means 'one per component' (documented); MFPCA.fit writes the ones out"""
+    if v is None:
+        return "ones"
+    a = np.asarray(v)
+    if a.dtype.kind in "fiu" and a.size and np.all(a == 1):
+        return "ones"
+    return _value_token(v)
+
+
+class ConfigView:
+    """the constructor arguments of an estimator as seen NOW through the public properties and
+    through the private attributes; one location per entry, compared by value"""
+
+    SPEC = {
+        "UFPCA": [("method", None), ("n_components", None), ("normalize", None)],
+        "MFPCA": [("method", None), ("n_components", None), ("normalize", None), ("weights", _ones_token),
+                  ("univariate_expansion", None)],
+        "FCPTPA": [("n_components", None), ("normalize", None)],
+        "PSplines": [("n_segments", _ints_token), ("degree", _ints_token), ("order_penalty", None), ("order_derivative", None)],
+        "LocalPolynomial": [("kernel_name", None), ("bandwidth", None), ("degree", None), ("robust", None)],
+    }
+
+    def __init__(self, est):
+        self.est = est
+        self.spec = self.SPEC[type(est).__name__]
+        self.cells = {}
+        for name, _ in self.spec:
+            self.cells["public." + name] = _Cell(name)
+            self.cells["private._" + name] = _Cell(name)
+
+    def current(self):
+        out = {}
+        for name, canon in self.spec:
+            canon = canon or _value_token
+            try:
+                out["public." + name] = canon(getattr(self.est, name))
+            except Exception as e:  # noqa: BLE001
+                out["public." + name] = "unreadable:" + type(e).__name__
+            d = vars(self.est)
+            out["private._" + name] = canon(d["_" + name]) if "_" + name in d else "absent"
+        return out
+
+
 def snapshot(roots, reg, frozen_roots=False):
     """Deep snapshot: {loc: Node}.  `roots` is a list of (name, object)."""
     out = {}
@@ -136,6 +209,10 @@ def snapshot(roots, reg, frozen_roots=False):
                 return f"@{loc}"
         except ImportError:  # pragma: no cover
             pass
+        if isinstance(x, ConfigView):
+            for name, tok in x.current().items():
+                out[reg.loc(x.cells[name])] = Node("config", tok, False, f"{path}.{name}", x.cells[name])
+            return f"cfg@{reg.loc(x)}"
         if is_fd_object(x) and type(x).__name__ in FROZEN_TYPES:
             frozen = True         # sampling points and bases: shared by design, never written
         loc = reg.loc(x)
@@ -469,6 +546,36 @@ def make_irregular(rng, n=6, m=11, zv=False):
     return fd.irregular(ts, xs)
 
 
+def make_irregular_nan(rng, n=6, m=11):
+    """NaN-encoded irregular data on a COMMON grid, exactly as Simulation.sparsify encodes them:
+    every curve refers to the same DenseArgvals object and has full-length values with NaN at
+    the unobserved points."""
+    from FDApy.representation.functional_data import IrregularFunctionalData
+    from FDApy.representation.argvals import IrregularArgvals, DenseArgvals
+    from FDApy.representation.values import IrregularValues
+    t = np.linspace(0, 1, m)
+    base = fd.smooth_curves(rng, n, t, rough=False) + 0.05 * rng.normal(size=(n, m))
+    common = DenseArgvals({"input_dim_0": t})
+    av, va = {}, {}
+    for i in range(n):
+        val = base[i].copy()
+        drop = rng.choice(m, size=int(rng.integers(2, 5)), replace=False)
+        val[drop] = np.nan
+        av[i], va[i] = common, val
+    return IrregularFunctionalData(IrregularArgvals(av), IrregularValues(va))
+
+
+def make_irregular_sparsified(seed):
+    """the real sparsifier (seeded): KarhunenLoeve(...).new(); .sparsify()"""
+    from FDApy.simulation.karhunen import KarhunenLoeve
+    from FDApy.representation.argvals import DenseArgvals
+    kl = KarhunenLoeve(basis_name="fourier", n_functions=4, argvals=DenseArgvals({"input_dim_0": np.linspace(0, 1, 13)}),
+                       random_state=int(seed) + 160)
+    kl.new(n_obs=6)
+    kl.sparsify(percentage=0.75, epsilon=0.1)
+    return kl.sparse_data
+
+
 def make_basis(rng, n=6, given=True):
     from FDApy.representation.basis import Basis
     from FDApy.representation.argvals import DenseArgvals
@@ -492,6 +599,8 @@ def make_multi(rng, kind):
         parts = [a, make_dense1d(rng, n=n, m=9, variant=1)]
     elif kind == "multi-di":
         parts = [a, make_irregular(rng, n=n, m=9)]
+    elif kind == "multi-dn":
+        parts = [a, make_irregular_nan(rng, n=n, m=9)]
     elif kind == "multi-d2":
         parts = [a, make_dense2d(rng, n=n)]
     else:
@@ -499,8 +608,8 @@ def make_multi(rng, kind):
     return fd.multivariate(parts)
 
 
-DATA_KINDS = ["dense1d", "dense1d-nonuniform", "dense2d", "irregular", "irregular-const", "basis-given", "basis-fourier",
-              "multi-dd", "multi-di", "multi-d2", "multi-db"]
+DATA_KINDS = ["dense1d", "dense1d-nonuniform", "dense2d", "irregular", "irregular-const", "irregular-nan", "irregular-sparsified",
+              "basis-given", "basis-fourier", "multi-dd", "multi-di", "multi-dn", "multi-d2", "multi-db"]
 
 
 def make_data(kind, seed):
@@ -515,6 +624,10 @@ def make_data(kind, seed):
         return make_irregular(rng)
     if kind == "irregular-const":
         return make_irregular(rng, zv=True)
+    if kind == "irregular-nan":
+        return make_irregular_nan(rng)
+    if kind == "irregular-sparsified":
+        return make_irregular_sparsified(seed)
     if kind == "basis-given":
         return make_basis(rng, given=True)
     if kind == "basis-fourier":
@@ -757,6 +870,29 @@ class Seq:
         if result_bytes(a) != result_bytes(b):
             self.sc.problems.append(("repeat", f"{what}: results differ bitwise"))
 
+    def history(self, tag, fit_a, fit_b, fresh_fit_b, first_a):
+        """fit(A) [done: first_a]; fit(B); fit(A): the second fit(A) must equal the first, and fit(B)
+        on the used estimator must equal fit(B) on a fresh estimator built from the same arguments."""
+        stb, fb = self.call(f"{tag}.fit(B) [after fit(A)]", fit_b)
+        try:
+            with warnings.catch_warnings():
+                warnings.simplefilter("ignore")
+                fb0, st0 = fresh_fit_b(), "ok"
+        except ModuleNotFoundError:
+            fb0, st0 = None, "env"
+        except Exception as e:  # noqa: BLE001
+            fb0, st0 = None, "exc:" + type(e).__name__
+        if stb != st0 and "env" not in (stb, st0):
+            self.sc.problems.append(("history", f"{tag}.fit(B) [after fit(A)]: {stb} on the used estimator, {st0} on a fresh estimator "
+                                                f"with the same constructor arguments"))
+        elif stb == "ok" and st0 == "ok" and result_bytes(fb) != result_bytes(fb0):
+            self.sc.problems.append(("history", f"{tag}.fit(B) [after fit(A)]: result differs from fit(B) on a fresh estimator"))
+        sta, fa2 = self.call(f"{tag}.fit(A) [after fit(A); fit(B)]", fit_a)
+        if first_a is not None and sta == "ok":
+            self.same(f"{tag}: fit(A); fit(B); fit(A) — second fit(A) vs first", first_a, fa2)
+        elif first_a is not None and sta != "ok":
+            self.sc.problems.append(("history", f"{tag}.fit(A) [after fit(A); fit(B)]: {sta}, the first fit(A) succeeded"))
+
 
 def pen(m):
     d = np.diff(np.identity(m))
@@ -777,7 +913,9 @@ def est_ufpca(ctx, seed, method, normalize, ncomp, variant):
         kw = dict(points=pts, method_smoothing="PS", kwargs_mean=kmean)
         cfg = [("points", pts), ("kwargs_mean", kmean)]
     names = ["eigenvalues", "eigenfunctions", "mean", "covariance"]
-    q = Seq(ctx, ("UFPCA", method, normalize, ncomp, variant), [("data", data)] + cfg)
+    data_b = make_data("dense1d-nonuniform" if kind == "dense1d" else "dense2d", seed + 5)
+    q = Seq(ctx, ("UFPCA", method, normalize, ncomp, variant),
+            [("data", data), ("data B", data_b), ("estimator configuration", ConfigView(est))] + cfg)
     tag = f"UFPCA({method},n_components={ncomp},normalize={normalize},{variant})"
 
     def fit():
@@ -810,10 +948,16 @@ def est_ufpca(ctx, seed, method, normalize, ncomp, variant):
         else:
             _, r2 = q.call(f"{tag}.transform(data,{m}) [after refit]", lambda m=m: est.transform(data, method=m))
         q.same(f"{tag}.transform({m}) repeated after refit", r, r2)
+
+    def fit_b(e=None):
+        e = est if e is None else e
+        e.fit(data_b)
+        return collect(e, names)
+    q.history(tag, fit, fit_b, lambda: fit_b(UFPCA(method=method, n_components=ncomp, normalize=normalize)), f1 if not kw else None)
     return q.sc
 
 
-def est_mfpca(ctx, seed, method, normalize, kind, uni):
+def est_mfpca(ctx, seed, method, normalize, kind, uni, user_weights=False):
     from FDApy.preprocessing.dim_reduction.mfpca import MFPCA
     data = make_data(kind, seed)
     nfun = len(data.data)
@@ -823,11 +967,14 @@ def est_mfpca(ctx, seed, method, normalize, kind, uni):
         ue = [{"method": "UFPCA"} for _ in range(nfun)]
     else:
         ue = [{"method": "PSplines", "n_components": 4, "penalty": 1.0} for _ in range(nfun)]
-    weights = None
+    weights = np.array([1.0, 2.0]) if user_weights else None
     est = MFPCA(n_components=2, method=method, univariate_expansions=ue, weights=weights, normalize=normalize)
+    data_b = make_data(kind, seed + 5)
     names = ["eigenvalues", "eigenfunctions", "mean", "covariance"]
-    q = Seq(ctx, ("MFPCA", method, normalize, kind, uni), [("data", data), ("univariate_expansions", ue)])
-    tag = f"MFPCA({method},normalize={normalize},{kind},{uni})"
+    q = Seq(ctx, ("MFPCA", method, normalize, kind, uni, user_weights),
+            [("data", data), ("data B", data_b), ("univariate_expansions", ue), ("estimator configuration", ConfigView(est))]
+            + ([("weights", weights)] if user_weights else []))
+    tag = f"MFPCA({method},normalize={normalize},{kind},{uni},weights={'[1,2]' if user_weights else None})"
 
     def fit():
         est.fit(data)
@@ -852,6 +999,14 @@ def est_mfpca(ctx, seed, method, normalize, kind, uni):
             continue
         _, r2 = q.call(f"{tag}.transform(data,{m}) [after refit]", lambda m=m: est.transform(data, method=m))
         q.same(f"{tag}.transform({m}) repeated after refit", r, r2)
+
+    def fit_b(e=None):
+        e = est if e is None else e
+        e.fit(data_b)
+        return collect(e, names)
+    q.history(tag, fit, fit_b,
+              lambda: fit_b(MFPCA(n_components=2, method=method, univariate_expansions=copy.deepcopy(ue),
+                                  weights=None if weights is None else np.array([1.0, 2.0]), normalize=normalize)), f1)
     return q.sc
 
 
@@ -862,7 +1017,10 @@ def est_fcptpa(ctx, seed, normalize, ncomp):
     pm = {"v": pen(m1), "w": pen(m2)}
     ar = {"v": (1e-2, 1e2), "w": (1e-3, 1e3)}
     est = FCPTPA(n_components=ncomp, normalize=normalize)
-    q = Seq(ctx, ("FCPTPA", normalize, ncomp), [("data", data), ("penalty_matrices", pm), ("alpha_range", ar)])
+    data_b = make_dense2d(np.random.default_rng([C.seed(), 16, seed, 5]), n=4, m1=5, m2=4)
+    pm_b = {"v": pen(5), "w": pen(4)}
+    q = Seq(ctx, ("FCPTPA", normalize, ncomp), [("data", data), ("data B", data_b), ("penalty_matrices", pm), ("penalty_matrices B", pm_b),
+                                                ("alpha_range", ar), ("estimator configuration", ConfigView(est))])
     tag = f"FCPTPA(n_components={ncomp},normalize={normalize})"
 
     def fit():
@@ -884,6 +1042,13 @@ def est_fcptpa(ctx, seed, normalize, ncomp):
     q.same(f"{tag}.transform(FCPTPA) repeated after refit", t2, t2b)
     _, i2 = q.call(tag + ".inverse_transform [repeat]", lambda: est.inverse_transform(scores), extra_inputs=[("scores", scores)])
     q.same(f"{tag}.inverse_transform repeated", i1, i2)
+
+    def fit_b(e=None):
+        e = est if e is None else e
+        np.random.seed(4321)
+        e.fit(data_b, pm_b, ar, tolerance=1e-4, max_iteration=10, adapt_tolerance=True)
+        return collect(e, ["eigenvalues", "eigenfunctions"])
+    q.history(tag, fit, fit_b, lambda: fit_b(FCPTPA(n_components=ncomp, normalize=normalize)), f1)
     return q.sc
 
 
@@ -904,7 +1069,15 @@ def est_psplines(ctx, seed, dim, weighted):
         pen_ = (1.0, 2.0)
         xn = [np.linspace(0.1, 0.9, 4), np.linspace(0.2, 1.8, 5)]
         w = rng.uniform(0.5, 2, size=(7, 6)) if weighted else None
-    inputs = [("y", y), ("x", x), ("penalty", pen_), ("x_new", xn)] + ([("sample_weights", w)] if weighted else [])
+    # data B of the OTHER dimension: a fit must not leave the estimator specialised to a dimension
+    if dim == 1:
+        xb, yb, pen_b = [np.linspace(0, 1, 7), np.linspace(0, 2, 6)], rng.normal(size=(7, 6)), (1.0, 2.0)
+        fresh = lambda: PSplines(n_segments=6, degree=3)  # noqa: E731
+    else:
+        xb, yb, pen_b = np.linspace(0, 1, 15), np.sin(4 * np.linspace(0, 1, 15)), 1.5
+        fresh = lambda: PSplines(n_segments=np.array([3, 3]), degree=np.array([2, 2]))  # noqa: E731
+    inputs = [("y", y), ("x", x), ("penalty", pen_), ("x_new", xn), ("y B", yb), ("x B", xb), ("estimator configuration", ConfigView(est))] \
+        + ([("sample_weights", w)] if weighted else [])
     q = Seq(ctx, ("PSplines", dim, weighted), inputs)
     tag = f"PSplines(dim={dim},weighted={weighted})"
 
@@ -922,6 +1095,12 @@ def est_psplines(ctx, seed, dim, weighted):
     _, p2b = q.call(tag + ".predict(x_new) [after refit]", lambda: est.predict(xn))
     q.same(f"{tag}.predict() repeated", p1, p1b)
     q.same(f"{tag}.predict(x_new) repeated", p2, p2b)
+
+    def fit_b(e=None):
+        e = est if e is None else e
+        e.fit(yb, xb, penalty=pen_b)
+        return collect(e, ["y_hat", "beta_hat", "diagnostics"])
+    q.history(tag, fit, fit_b, lambda: fit_b(fresh()), f1)
     return q.sc
 
 
@@ -934,11 +1113,13 @@ def est_lp(ctx, seed, kernel, degree, robust, dim):
         xn = np.linspace(0.05, 0.95, 6)
     else:
         g = np.linspace(0, 1, 5)
-        x = np.array(np.meshgrid(g, g)).reshape(2, -1)
+        x = np.array(np.meshgrid(g, g)).reshape(2, -1).T.copy()
         y = rng.normal(size=25)
-        xn = np.array(np.meshgrid(g[:3], g[:3])).reshape(2, -1)
+        xn = np.array(np.meshgrid(g[:3], g[:3])).reshape(2, -1).T.copy()
     est = LocalPolynomial(kernel_name=kernel, bandwidth=0.4, degree=degree, robust=robust)
-    q = Seq(ctx, ("LocalPolynomial", kernel, degree, robust, dim), [("y", y), ("x", x), ("x_new", xn)])
+    yb, xb = np.sin(5 * np.linspace(0, 2, 12)), np.linspace(0, 2, 12)
+    q = Seq(ctx, ("LocalPolynomial", kernel, degree, robust, dim),
+            [("y", y), ("x", x), ("x_new", xn), ("y B", yb), ("x B", xb), ("estimator configuration", ConfigView(est))])
     tag = f"LocalPolynomial({kernel},degree={degree},robust={robust},dim={dim})"
     _, p1 = q.call(tag + ".predict(y,x)", lambda: est.predict(y, x))
     _, p2 = q.call(tag + ".predict(y,x,x_new)", lambda: est.predict(y, x, xn))
@@ -946,6 +1127,8 @@ def est_lp(ctx, seed, kernel, degree, robust, dim):
     _, p2b = q.call(tag + ".predict(y,x,x_new) [repeat]", lambda: est.predict(y, x, xn))
     q.same(f"{tag}.predict(y,x) repeated", p1, p1b)
     q.same(f"{tag}.predict(y,x,x_new) repeated", p2, p2b)
+    q.history(tag.replace(")", ",predict as fit)"), lambda: est.predict(y, x), lambda: est.predict(yb, xb),
+              lambda: LocalPolynomial(kernel_name=kernel, bandwidth=0.4, degree=degree, robust=robust).predict(yb, xb), p1)
     return q.sc
 
 
@@ -953,7 +1136,10 @@ def estimator_scenarios(ctx, quick):
     out = []
     for method in ("covariance", "inner-product"):
         for normalize in (False, True):
-            for ncomp, variant in ((2, "plain"), (0.9, "plain"), (2, "points")) + (((2, "2d"),) if method == "inner-product" else ()):
+            for ncomp, variant in ((2, "plain"), (0.9, "plain"), (None, "plain"), (2, "points"), (None, "points")) + \
+                    (((2, "2d"), (None, "2d"), (0.9, "2d")) if method == "inner-product" else ()):
+                if quick and variant == "points" and method == "covariance" and (normalize or ncomp is None):
+                    continue      # the smoothed covariance route costs ~6 s per history: one in the quick tier
                 out.append(("UFPCA", lambda m=method, nz=normalize, k=ncomp, v=variant: est_ufpca(ctx, 3, m, nz, k, v)))
     for method in ("covariance", "inner-product"):
         for normalize in (False, True):
@@ -961,6 +1147,7 @@ def estimator_scenarios(ctx, quick):
                 if kind == "multi-d2" and (method == "covariance" or quick):
                     continue          # 2-D univariate expansions take ~30 s each: thorough tier only
                 out.append(("MFPCA", lambda m=method, nz=normalize, kd=kind, u=uni: est_mfpca(ctx, 5, m, nz, kd, u)))
+            out.append(("MFPCA", lambda m=method, nz=normalize: est_mfpca(ctx, 5, m, nz, "multi-dd", "UFPCA", user_weights=True)))
     for normalize in (False, True):
         for ncomp in (1, 3):
             out.append(("FCPTPA", lambda nz=normalize, k=ncomp: est_fcptpa(ctx, 7, nz, k)))
@@ -995,12 +1182,32 @@ CANDIDATES = {
 }
 
 
+CANDIDATES.update({
+    "F-C16-mfpca-weights-overwritten":
+        "MFPCA(..., normalize=True).fit stores the estimated rescaling weights in the CONFIGURATION attribute `weights` "
+        "(est.weights / est._weights): a user-supplied weights=np.array([1., 2.]) — or None — is silently replaced "
+        "(e.g. by [3.01, 0.67]); the user's array object itself is untouched",
+    "F-C16-psplines-config-promotion":
+        "PSplines(n_segments=6, degree=3).fit on 1-D data rebinds the integer configuration to arrays of length 1; a later "
+        "fit of the SAME estimator on 2-D data raises ValueError (cannot reshape ...), whereas a fresh PSplines(6, 3) fits "
+        "the 2-D data (after a first 2-D fit the arrays have length 2 and 1-D fits still work)",
+})
+
+
 def _last_call(msg):
     return msg.split(": ")[0].split("; ")[-1]
 
 
 def classify(cat, msg):
     last = _last_call(msg)
+    head = msg.split(": ")[0]
+    if cat == "write-input" and head.startswith("MFPCA(") and "normalize=True" in head and head.endswith(".fit") \
+            or (cat == "write-input" and head.startswith("MFPCA(") and "normalize=True" in head and ".fit" in head
+                and "estimator configuration" in msg and "weights" in msg.split(" at ")[-1]):
+        if "estimator configuration" in msg and "weights" in msg.split(" at ")[-1]:
+            return "F-C16-mfpca-weights-overwritten"
+    if cat == "history" and head.startswith("PSplines(dim=1") and "exc:ValueError on the used estimator, ok on a fresh estimator" in msg:
+        return "F-C16-psplines-config-promotion"
     if cat == "garbage" and "standardize(" in last and ("basis-" in msg.split(": ")[0]):
         return "F-C16-basis-standardize-garbage"
     if cat == "alias-input":
@@ -1058,7 +1265,7 @@ def report(rep, ctx, scenarios):
                 seen.add(key)
                 what = {"write-input": "input/configuration modified", "write-earlier-result": "earlier result modified",
                         "alias-input": "result aliases mutable input state", "garbage": "uninitialised memory",
-                        "repeat": "not repeatable"}[cat]
+                        "repeat": "not repeatable", "history": "result depends on the estimator's history"}[cat]
                 rep.violation(f"{what}: {msg}", {**meta, "category": cat, "frame_condition_holds(Coq)": bool(res[t]) if not frame else False})
     # consistency: a batch the model accepts must not contain frame problems seen by the monitors
     for g, t in zip(groups, idx):
